@@ -332,9 +332,13 @@ fn run(mut tasks: Vec<Task>, order: &str, shared: &Rc<RefCell<Shared>>) -> Vec<O
         .map(|c| if c == b'l' { 1 } else { 0 })
         .chain([0usize, 1])
         .collect();
-    let mut idle = 0;
+    // a task is idle if its last poll changed nothing anywhere; the run is stuck when every
+    // unfinished task is idle
+    let mut idle: Vec<bool> = tasks.iter().map(|_| false).collect();
     let mut step = 0usize;
-    while out.iter().any(|o| o.is_none()) && idle < 4 * tasks.len() + 4 {
+    while out.iter().any(|o| o.is_none())
+        && !(0..tasks.len()).all(|j| out[j].is_some() || idle[j])
+    {
         let mut i = order[step % order.len()] % tasks.len();
         step += 1;
         if out[i].is_some() {
@@ -346,13 +350,13 @@ fn run(mut tasks: Vec<Task>, order: &str, shared: &Rc<RefCell<Shared>>) -> Vec<O
                 out[i] = Some(r);
                 // drop the finished future (and the I/O it owns) right away
                 tasks[i] = Box::pin(async { (String::new(), Vec::new()) });
-                idle = 0;
+                idle.iter_mut().for_each(|x| *x = false);
             }
             Poll::Pending =>
                 if shared.borrow().activity == before {
-                    idle += 1;
+                    idle[i] = true;
                 } else {
-                    idle = 0;
+                    idle.iter_mut().for_each(|x| *x = false);
                 },
         }
     }
